@@ -1,14 +1,38 @@
 #!/usr/bin/env python3
-"""prints the markdown table of seeded changes from /verif/seeded/*/meta.json"""
+"""writes /verif/seeded/README.md: the table of seeded changes from /verif/seeded/*/meta.json (+ tests_confirmed.json)"""
 import json, glob, os
-print('| seed | property | what was changed | what it needs to manifest | caught by (exit 1) | how |')
-print('|------|----------|------------------|---------------------------|--------------------|-----|')
-for f in sorted(glob.glob(os.path.join(os.path.dirname(os.path.dirname(os.path.abspath(__file__))), 'seeded', '*', 'meta.json'))):
-    m = json.load(open(f)); sid = os.path.basename(os.path.dirname(f))
+root = os.path.dirname(os.path.dirname(os.path.abspath(__file__)))
+rows = []
+for f in sorted(glob.glob(os.path.join(root, 'seeded', '*', 'meta.json'))):
+    m = json.load(open(f)); d = os.path.dirname(f); sid = os.path.basename(d)
+    conf = dict(m.get('confirmed_by_us') or {})
+    tc = os.path.join(d, 'tests_confirmed.json')
+    if os.path.exists(tc):
+        conf.update(json.load(open(tc)))
+    tests = 'pass' if conf.get('baseline_missing') == [] else ('NOT CONFIRMED' if 'baseline_missing' not in conf else 'missing %d' % len(conf['baseline_missing']))
+    demo = '%s/%s' % (conf.get('demo_without_change_exit'), conf.get('demo_with_change_exit'))
     how = []
     for p, v in (m.get('checks_run') or {}).items():
-        for l in v.get('violations', [])[:2]:
+        for l in v.get('violations', [])[:3]:
             ob = l.split('replay=replays/')[1].split('.json')[0] if 'replay=' in l else ''
+            ob = ob.split('-', 1)[1] if '-' in ob else ob
             how.append(ob + (' (no-failing-input-found)' if 'no-failing-input-found' in l else ''))
-    print('| %s | %s | %s | %s | %s | %s |' % (sid, m.get('property'), str(m.get('summary', ''))[:160].replace('|', '/'), str(m.get('needs', ''))[:160].replace('|', '/'),
-                                            ', '.join(m.get('caught_by', [])) or '**missed**', '; '.join(how[:3])))
+    missed = [p for p, v in (m.get('checks_run') or {}).items() if v.get('exit') == 0]
+    rows.append('| %s | %s | %s | %s | %s | %s | %s | %s |' % (sid, m.get('property'), str(m.get('summary', ''))[:260].replace('|', '/').replace('\n', ' '),
+                str(m.get('needs', ''))[:220].replace('|', '/').replace('\n', ' '), demo, tests, ', '.join(m.get('caught_by', [])) or '**missed**', '; '.join(how[:4])))
+head = '''# Seeded changes
+
+Each directory holds one property-breaking change written by a fresh sub-agent that saw only the text of one property and its own scratch worktree of
+/repo (nothing from /verif): `patch.diff` (applies to /repo HEAD with `git apply`), `demo.py` (exits 1 with the change, 0 without; run as
+`cd <tree> && /venv/bin/python demo.py`), `meta.json` (the agent's description, our confirmation and the outcome of the checks) and, where the test-suite
+was confirmed separately, `tests_confirmed.json`.  Nothing here is ever committed to /repo: `tools/eval_seed.py <id> <dir> <props...>` confirms the change in a
+scratch worktree, applies it to /repo, runs the named checks, and reverts /repo (`git checkout -- .`) straight afterwards.
+
+Columns: *demo* = exit status of the demonstration without/with the change (must be 0/1); *tests* = the 773 pinned stable-pass tests still pass with the
+change applied; *caught by* = checks that exit 1 with the change applied; *how* = the obligations / bounded clauses that reported it (first few).
+
+| seed | property | what was changed | what it needs to manifest | demo | tests | caught by (exit 1) | how |
+|------|----------|------------------|---------------------------|------|-------|--------------------|-----|
+'''
+open(os.path.join(root, 'seeded', 'README.md'), 'w').write(head + '\n'.join(rows) + '\n')
+print('%d seeds' % len(rows))
